@@ -213,6 +213,15 @@ func (c *Conn) currentWireConn() *wire.ClientConn {
 	return c.wireConn
 }
 
+// currentWireConnAndGeneration returns the current wire connection together with its generation, the value of
+// state.Connects() it was installed under. reconnect holds wireConnMu from before the status leaves "connected" until
+// the new wire connection is stored, so under wireConnMu the two belong together.
+func (c *Conn) currentWireConnAndGeneration() (*wire.ClientConn, uint64) {
+	c.wireConnMu.Lock()
+	defer c.wireConnMu.Unlock()
+	return c.wireConn, c.state.Connects()
+}
+
 func (c *Conn) registerUpstream(up *Upstream) error {
 	ctx := context.Background()
 	c.upstreamMu.Lock()
@@ -278,8 +287,13 @@ func (c *Conn) OpenUpstream(ctx context.Context, sessionID string, opts ...Upstr
 	upconf.SessionID = sessionID
 
 	var resp *message.UpstreamOpenResponse
+	var connGeneration uint64
 	err := c.send(ctx, func(ctx context.Context) error {
-		r, err := c.currentWireConn().SendUpstreamOpenRequest(ctx, &message.UpstreamOpenRequest{
+		// the generation of the wire connection the stream is opened on: should the stream end up on a later one
+		// (a reconnect before it is attached below), its run ends at once and the stream is resumed there
+		wireConn, generation := c.currentWireConnAndGeneration()
+		connGeneration = generation
+		r, err := wireConn.SendUpstreamOpenRequest(ctx, &message.UpstreamOpenRequest{
 			SessionID:      upconf.SessionID,
 			AckInterval:    *upconf.AckInterval,
 			ExpiryInterval: upconf.ExpiryInterval,
@@ -344,6 +358,7 @@ func (c *Conn) OpenUpstream(ctx context.Context, sessionID string, opts ...Upstr
 		eventDispatcher:      newEventDispatcher(),
 
 		connState:               c.state,
+		connGeneration:          connGeneration,
 		explicitlyFlushCh:       make(chan (<-chan struct{})),
 		explicitlyFlushResultCh: make(chan error),
 		Config:                  upconf,
@@ -388,7 +403,7 @@ func (c *Conn) OpenUpstream(ctx context.Context, sessionID string, opts ...Upstr
 					return
 				}
 
-				if err := u.resume(c.currentWireConn()); err != nil {
+				if err := u.resume(c.currentWireConnAndGeneration()); err != nil {
 					u.logger.Errorf(ctx, "failed to resume upstream: %+v", err)
 					return
 				}
@@ -420,6 +435,7 @@ func (c *Conn) OpenDownstream(ctx context.Context, filters []*message.Downstream
 		dpsCh          <-chan *message.DownstreamChunk
 		ackCompCh      <-chan *message.DownstreamChunkAckComplete
 		metaCh         <-chan *message.DownstreamMetadata
+		connGeneration uint64
 		aliasGenerator = wire.NewAliasGenerator(0)
 		aliases        = make(map[uint32]*message.DataID, len(downconf.DataIDs))
 		revAliases     = make(map[message.DataID]uint32, len(downconf.DataIDs))
@@ -432,6 +448,9 @@ func (c *Conn) OpenDownstream(ctx context.Context, filters []*message.Downstream
 
 	err = c.send(ctx, func(ctx context.Context) error {
 		c.wireConnMu.Lock()
+		// the generation of the first wire connection this attempt touches: should the stream end up on a later one
+		// (a reconnect before it is attached below), its run ends at once and the stream is resumed there
+		connGeneration = c.state.Connects()
 		dpsCh, err = c.wireConn.SubscribeDownstreamChunk(ctx, alias, downconf.QoS)
 		c.wireConnMu.Unlock()
 		if err != nil {
@@ -508,9 +527,10 @@ func (c *Conn) OpenDownstream(ctx context.Context, filters []*message.Downstream
 
 		logger: c.logger,
 
-		connStatus: c.state,
-		state:      newStreamState(),
-		Config:     downconf,
+		connStatus:     c.state,
+		connGeneration: connGeneration,
+		state:          newStreamState(),
+		Config:         downconf,
 	}
 	go func() {
 		defer c.state.wake()
